@@ -219,7 +219,7 @@ def main(tier, seed):
               "with symbolic items, keys and bit indices; after every operation the observable state must agree.")
     run.functions = FUNCS
     hs = harnesses(tier, seed)
-    timeout = 25 if tier == "quick" else 180
+    timeout = 25 if tier == "quick" else 60
     run.assumptions = ["operation-kind sequences enumerated (OrderedSet/BitVector: all of length <= 2 + seeded length 3 "
                        "(thorough: all of length 3, sample of 4); UHeap: length 2-5 over 3 concrete items)",
                        "OrderedSet items symbolic in {0,1,2}; UHeap keys symbolic in [0,3]; BitVector indices symbolic in [0,70)",
